@@ -1,2 +1,3 @@
 //! R — the independent reference model (DESIGN §2.3).
 pub mod pkt;
+pub mod tcpopts;
